@@ -129,7 +129,7 @@ func inBubble(fn func()) (deadlock bool, msg string) {
 	defer func() {
 		if p := recover(); p != nil {
 			s := fmt.Sprint(p)
-			if strings.Contains(s, "deadlock") {
+			if strings.Contains(s, "deadlock") && !strings.Contains(s, "has exited") {
 				deadlock, msg = true, s
 				return
 			}
@@ -138,6 +138,16 @@ func inBubble(fn func()) (deadlock bool, msg string) {
 	}()
 	synctest.Test(gT, func(t *testing.T) { fn() })
 	return false, ""
+}
+
+// drain lets every goroutine of the bubble finish before the bubble is left:
+// handlers see the closed done channel, sleepers of <<wait>> see their deadline.
+func drain(bubble bool) {
+	if bubble {
+		synctest.Wait()
+		time.Sleep(100000 * time.Second)
+		synctest.Wait()
+	}
 }
 
 // settle lets every goroutine of the bubble run until it blocks.
@@ -159,6 +169,7 @@ type Trace struct {
 type execHooks struct {
 	// afterOp is called after each op with the (possibly nil for non-next ops) response.
 	afterOp func(i int, op *Op, got *Resp, h *Host, tr *Trace) *Violation
+	beforeOp func(i int, op *Op, h *Host)
 	// stopOn ends the run early
 	stopAfter func(i int, op *Op, got *Resp) bool
 	bubble    bool
@@ -198,6 +209,9 @@ func runOps(h *Host, ops []Op, hk *execHooks, st *Stats) (*Trace, *Violation) {
 		op := &ops[i]
 		ev0 := h.nEvents()
 		var got *Resp
+		if hk.beforeOp != nil {
+			hk.beforeOp(i, op, h)
+		}
 		switch op.K {
 		case "next":
 			r := h.Next(op.Arg)
@@ -272,7 +286,7 @@ func runWorld(w *World, ops []Op, hk *execHooks, st *Stats) (tr *Trace, viol *Vi
 		}
 		tr, viol = runOps(h, ops, hk, st)
 		h.Close()
-		settle(hk.bubble)
+		drain(hk.bubble)
 	}
 	if hk.bubble {
 		if dl, msg := inBubble(body); dl {
@@ -316,3 +330,6 @@ func sortedKeys[V any](m map[string]V) []string {
 	sort.Strings(keys)
 	return keys
 }
+
+func jsonMarshal(v any) ([]byte, error)   { return json.Marshal(v) }
+func jsonUnmarshal(b []byte, v any) error { return json.Unmarshal(b, v) }
